@@ -322,7 +322,14 @@ def r6_refused_insert_is_pure(ctx):
     R.floor("C05.R6", n, 3, "RequestManager::insert_* functions with a refusal path")
 
 
-RULES = [r1_classifier_agreement, r2_routing, r3_lag_and_close, r4_single_unsubscribe, r5_close_messages_are_not_lossy, r6_refused_insert_is_pure]
+
+def rarr_every_element(ctx):
+    """an array message is processed element by element to the end"""
+    from .common import array_elements_all_processed
+    array_elements_all_processed(ctx.F, ctx.R, "C05.ARR")
+
+
+RULES = [r1_classifier_agreement, r2_routing, r3_lag_and_close, r4_single_unsubscribe, r5_close_messages_are_not_lossy, r6_refused_insert_is_pure, rarr_every_element]
 
 LEVEL_TEXT = (
     "Structural necessary conditions of the client's notification demultiplexing decided from the type-checked program: "
